@@ -12,11 +12,13 @@ func init() {
 			"(C09-nodrop) in the formatting layer (all functions reachable from the 9 formatter entries and the two ToString functions) every early success exit, continue and break is in a reviewed table - a new one can drop rows or parts of a row; " +
 			"(C09-emit) every loop over rows emits on every path through its body; " +
 			"(C09-orient) header and row builders of the csv and md tables order the columns alike in both orientations and are called with the same flag; md sub-sections pair rows, flag and header; exposure entries are oriented by direction. " +
+			"(C09-sel) a function that renders a label selector either runs the full selector writer on the path to its return or chooses an abbreviated text only where the path condition pins both matchLabels and matchExpressions. " +
 			"NOT decided: that the text of a row parses back to the same value (quoting, separators); encoding/json and encoding/csv are trusted."
 		rules.ProjectionSharing(p, r, "C09-proj")
 		rules.NoDropExits(p, r, "C09-nodrop")
 		rules.PerRowEmission(p, r, "C09-emit")
 		rules.OrientationParity(p, r, "C09-orient")
+		rules.SelectorRenderingLossless(p, r, "C09-sel")
 		r.Floor("C09-nodrop", 25)
 	})
 }
